@@ -14,11 +14,11 @@ Scenario sub-language (one op per line, a strict subset of notes/dsim.md):
 Canonical answers (the implementation's answers are rewritten into this form by `canon`, the model prints it directly):
   creations           `ok *`                     (the handle is a wildcard; it is remembered to name callback sources)
   log                 `ok <k> | <owner>.<callback> src=<entity name> x<count> | ...`  sorted; the count is `+` for
-                      deadline / incompatible-QoS / inconsistent-topic callbacks (the code repeats them on every worker
-                      iteration, see D35 and D62/D63; their multiplicity is the business of C30 and of the oracle here)
+                      deadline callbacks (how many periods fall into a window is the business of C30); every other
+                      callback is compared with its exact multiplicity
   matched             `ok <n> <sorted entity names>`
   read                `ok <n>` (number of samples) or `err:NoData`
-  status              `ok total=0` or `ok total>0`
+  status              `ok total=<n>`
   everything else     verbatim
 """
 from vlib.core import Case, run_cases, harness_bin, model_bin, case_hash, shrink_case
@@ -29,7 +29,7 @@ ENGINE = "listen"
 STATUSES = ["inconsistent_topic", "offered_deadline_missed", "requested_deadline_missed", "offered_incompatible_qos",
             "requested_incompatible_qos", "sample_lost", "sample_rejected", "data_on_readers", "data_available",
             "liveliness_lost", "liveliness_changed", "publication_matched", "subscription_matched"]
-REPEATING = ("deadline_missed", "incompatible_qos", "inconsistent_topic")
+REPEATING = ("deadline_missed",)
 CREATE = ("participant", "publisher", "subscriber", "topic", "writer", "reader")
 MS = 1000000
 
@@ -82,7 +82,7 @@ def canon(lines, outs):
         elif t[0] == "read" and is_ok(o):
             res.append("ok " + o.split()[1])
         elif t[0] == "status" and is_ok(o):
-            res.append("ok total=0" if " total=0 " in o + " " else "ok total>0")
+            res.append("ok " + next(x for x in o.split() if x.startswith("total=")))
         else:
             res.append(o)
     return res, names
@@ -333,7 +333,7 @@ def scenario(r, event, place, masks=None, same_participant=False, late=None, nil
     pre_ends = [x for x in pre if x.split()[1] in ("w", "r")]
     lines += pre_groups
     lines += [rl, wl] if first_reader else [wl, rl]
-    if second_writer and not event == "inconsistent":
+    if second_writer:
         lines.append(f"writer w2 pub t1 {wq}")
     lines.append("log")
     lines += ["matched w", "matched r"]
@@ -403,6 +403,12 @@ def corpus():
                     "publisher pub P1", "subscriber sub P2", "writer w pub t1 reliability=best_effort history=keep_all",
                     "reader r sub t2 reliability=reliable history=keep_all", "log", "advance 120000000", "log"],
                    {"event": "incompatible", "exemplar": "D62"}))
+    # D-listen-2 regression: two remote writers with an inconsistent type -> the reader's topic counts 2, each writer's topic 1
+    cs.append(Case(["participant P1 listener=all", "participant P2 listener=all", "topic t1 P1 T ki", "topic t2 P2 T ni",
+                    "publisher pub P1", "subscriber sub P2", "writer w pub t1 reliability=reliable history=keep_all",
+                    "reader r sub t2 reliability=reliable history=keep_all", "writer w2 pub t1 reliability=reliable history=keep_all",
+                    "log", "advance 120000000", "log", "status t1 inconsistent_topic", "status t2 inconsistent_topic", "log"],
+                   {"event": "inconsistent", "exemplar": "D-listen-2"}))
     return cs
 
 
